@@ -26,9 +26,10 @@ type c17Case struct {
 	Subnets      int
 	Split        int
 	PageSize     int
-	Stagger      bool // every other instance becomes ready one poll later
-	AttachFailAt int  // k-th AttachInstances call fails once (throttling-coded error); 0 = none
-	Prior        int64 // an earlier, successful fleet scale-up by this many instances on the same provider (0 = none)
+	Stagger      bool  // every other instance becomes ready one poll later
+	AttachFailAt int   // k-th AttachInstances call fails once (throttling-coded error); 0 = none
+	Prior        int64 // an earlier, successful scale-up by this many instances on the same provider (0 = none)
+	Lower        int64 // after that earlier scale-up somebody else lowers the desired capacity by this much (then a refresh)
 }
 
 func c17Run(p c17Case) (entries []sim.Entry, err error, before, after int64, setup error) {
@@ -69,6 +70,9 @@ func c17Run(p c17Case) (entries []sim.Entry, err error, before, after int64, set
 	if p.Prior > 0 {
 		if e := env.NG.IncreaseSize(p.Prior); e != nil {
 			return nil, nil, 0, 0, fmt.Errorf("prior IncreaseSize: %v", e)
+		}
+		if p.Lower > 0 && env.ASG.Desired-p.Lower >= 0 {
+			env.ASG.Desired -= p.Lower
 		}
 		if e := env.Prov.Refresh(); e != nil {
 			return nil, nil, 0, 0, e
@@ -251,6 +255,17 @@ func c17Grid(t *testing.T, tier string, shard, shards int, c *h.Collector) {
 								}
 							}
 						}
+					}
+				}
+			}
+		}
+		// an earlier scale-up on the same provider object, then the desired capacity lowered by somebody
+		// else, then a refresh: the next request is computed on what the cloud reports now
+		for _, fleet := range []bool{false, true} {
+			for _, prior := range []int64{1, 3} {
+				for _, lower := range []int64{0, 1, 2, 4} {
+					for _, d := range []int64{1, 2, 6} {
+						run(c17Case{Desired: 3, Max: 12, D: d, Fleet: fleet, Split: 1, PageSize: 50, Subnets: 1, Prior: prior, Lower: lower})
 					}
 				}
 			}
